@@ -240,3 +240,39 @@ class Bindings:
                 if fl['name'] == field:
                     return fl['e']
         return None
+
+
+def calls_via_helpers(crate, f, pred, depth=2, _seen=None):
+    """Calls whose callee satisfies `pred`, in `f` itself or in private functions of the crate that `f` calls (bounded depth).
+    Yields (call_node, ancestors, owner_fn, resolve) where resolve(expr) gives the origins of an operand of that call in terms
+    of `f`: origins that are parameters of a helper are replaced by the origins of the argument at the helper's call site."""
+    import re as _re
+    _seen = _seen or set()
+    out = []
+    b = Bindings(crate, f)
+    for nd, anc in crate.walk_fn(f):
+        if nd.get('k') != 'call':
+            continue
+        c = callee(nd)
+        if pred(c):
+            out.append((nd, anc, f, (lambda e, b=b: b.origins(e))))
+        elif depth > 0 and c in getattr(crate, 'fns', {}) and c not in _seen and c != f.path:
+            g = crate.fns[c]
+            if getattr(g, 'hir', None) is None:
+                continue
+            pn = [p.get('name') if isinstance(p, dict) and p.get('k') == 'bind' else None for p in g.params]
+            gb = Bindings(crate, g)
+            pn = [gb.rename.get(x, x) for x in pn]
+            for (c2, anc2, owner, res2) in calls_via_helpers(crate, g, pred, depth - 1, _seen | {f.path}):
+                def res(e, res2=res2, site=nd, b=b, pn=pn):
+                    out_ = set()
+                    for x in res2(e):
+                        m = _re.match(r'param\((\w+)\)(.*)$', x)
+                        if m and m.group(1) in pn and pn.index(m.group(1)) < len(site['args']):
+                            for y in b.origins(site['args'][pn.index(m.group(1))]):
+                                out_.add(y + m.group(2))
+                        else:
+                            out_.add(x)
+                    return out_
+                out.append((c2, anc2, owner, res))
+    return out
